@@ -30,15 +30,18 @@ func init() {
 	})
 	register(&Property{
 		ID: "C19",
-		Explanation: "Decides the guards around existing files: (create-file) createFile reports success only through ensureSize (size is made right: truncate / sparse truncate), and an existing object is reused only on the IsRegular()==true and Links<=1 edges — otherwise it is removed and re-created with O_EXCL; (sparse-off-for-existing) in restoreFiles every path on which sparse writing may have been enabled for a file that already existed (file.state != nil) passes `file.sparse = false` before the iteration ends, and that store happens only for existing files; (overwrite-exhaustive) shouldOverwrite, evaluated for each OverwriteBehavior constant: always/if-changed never look at the existing file and never reach the 'unknown overwrite behavior' panic, if-newer/never examine it and are handled, never yields true only for ErrNotExist; the restore callback of withOverwriteCheck runs only on shouldOverwrite==true without error. Not decided: equality of content and size after restore (runtime values).",
+		Explanation: "Decides the guards around existing files: (create-file) createFile reports success only through ensureSize (size is made right: truncate / sparse truncate), and an existing object is reused only on the IsRegular()==true and Links<=1 edges — otherwise it is removed and re-created with O_EXCL; (sparse-off-for-existing) in restoreFiles every path on which sparse writing may have been enabled for a file that already existed (file.state != nil) passes `file.sparse = false` before the iteration ends, and that store happens only for existing files; (overwrite-exhaustive) shouldOverwrite, evaluated for each OverwriteBehavior constant: always/if-changed never look at the existing file and never reach the 'unknown overwrite behavior' panic, if-newer/never examine it and are handled, never yields true only for ErrNotExist; the restore callback of withOverwriteCheck runs only on shouldOverwrite==true without error; (reuse-only-if-file-survives) verifyFile hands out a file state (the list of blobs already present, which the restorer then skips) only for regular files, and a state that still needs a restore only for targets with a single hard link — createFile replaces a target with several links by a new empty file, so reusing matches there leaves zeros where the skipped blobs belong; this is the genuine defect found with the seeded-change probe for this property, now fixed. Not decided: equality of content and size after restore (runtime values).",
 		Assumptions: commonAssumptions,
 		Technique:   "static analysis: CFG edge cuts + specialised path evaluation per overwrite mode (go/ssa)",
 		Run: func(c *eng.Ctx) {
 			ruleCreateFile(c)
 			ruleSparseOff(c)
 			ruleOverwriteModes(c)
+			ruleReuseOnlyIfFileSurvives(c)
 		},
 		Controls: []Control{
+			{Name: "matches-kept-for-hard-linked-target", File: "internal/restorer/restorer.go",
+				Old: "	if !failFast && state.NeedsRestore() && fs.ExtendedStat(fi).Links > 1 {", New: "	if !failFast && state.NeedsRestore() && fs.ExtendedStat(fi).Links > 1 && trustMtime {", Rule: "reuse-only-if-file-survives"},
 			{Name: "reuse-hardlinked-file", File: "internal/restorer/fileswriter.go",
 				Old: "		if ex.Links > 1 {\n", New: "		if ex.Links > 1 && sparse {\n", Rule: "create-file"},
 			{Name: "sparse-for-existing-files", File: "internal/restorer/filerestorer.go",
